@@ -123,7 +123,10 @@ DecodeStep(ev) ==
     /\ AddViol({[case |-> cid, line |-> l, prop |-> p, e |-> "Decode-" \o ev.key \o "-" \o ev.kv, pos |-> 0, bit |-> 0] : p \in failed})
     /\ annot' = IF AnnotBad(bs, ev.fr) THEN annot \cup {[line |-> l, what |-> "frame offsets differ"]} ELSE annot
     /\ LET mv == res'.dec.ok
-           d == (mv \in {"acc", "rej"} /\ mv # Verdict(ev.ok)) \/ (honest /\ ev.ok /\ ~ev.re)
+           \* (whether decode under a key accepts a message that carries no MESSAGE-INTEGRITY at all is
+           \* not C14's business -- C15 decides -- and is not compared)
+           unspecified == keyed /\ Frame(bs).mi = 0
+           d == (mv \in {"acc", "rej"} /\ mv # Verdict(ev.ok) /\ ~unspecified) \/ (honest /\ ev.ok /\ ~ev.re)
        IN Diverge(d, [what |-> "decode", model |-> <<mv>>, impl |-> <<Verdict(ev.ok), ev.re>>])
     /\ UNCHANGED <<cid, ncases, cur, stats>>
 
